@@ -81,6 +81,10 @@ impl StdioInterpreter {
         let messages = analyzer.take_messages();
         let lines = analyzer.take_source_file_lines();
         self.interpreter = analyzer.into_interpreter();
+        // The analyzer builds a fresh interpreter around the program it loaded, which
+        // replaces the one configured from the command line: carry the options over.
+        self.interpreter.enable_warnings = self.args.warnings;
+        self.interpreter.enable_tracing = self.args.tracing;
         if self.args.skip_check {
             return Ok(());
         }
